@@ -4,10 +4,21 @@
 // (live scope stack with function-boundary flags, captured stacks along the parent chain of the current
 // function; /repo/zygo/verif_c03.go).  The extracted machine coq/Model/ScopeImpl.v replays the events
 // (ocaml/refsem/run.ml, option scope=1) and must show the same structure at every lookup.
+//
+// Identity of functions and scopes = the address of the Go object (the accessors return uintptr, which
+// does not keep the object alive).  A callExprEval function or a block scope is garbage as soon as it is
+// left, and the allocator hands the address of a swept object out again: a NEW function at the address
+// of a dead one was then taken for the old one ("u<old>" instead of "s<new>:<parent>"), the replay
+// resumed the stale function and the tie reported a difference that depended on when the collector
+// happened to run (GOGC=5 showed it on every seed).  So the collector is switched off while a program
+// runs (no sweep = no address is handed out twice within one program) and run by hand between programs,
+// when the heap has grown (a full collection per program costs 20 ms, 25 s per quick run).
 package main
 
 import (
 	"fmt"
+	"runtime"
+	"runtime/debug"
 	"strings"
 
 	"github.com/glycerine/zygomys/v9/zygo"
@@ -67,7 +78,13 @@ func main() {
 		n = 40000
 	}
 	dumps, lookups := 0, 0
+	var ms runtime.MemStats
+	debug.SetGCPercent(-1)       // see the header comment: addresses are identities while a program runs
+	debug.SetMemoryLimit(1 << 62) // a GOMEMLIMIT from the environment would start the collector again
 	for i := 0; i < n; i++ {
+		if runtime.ReadMemStats(&ms); ms.HeapAlloc > 128<<20 {
+			runtime.GC() // between programs, when no identity is remembered
+		}
 		var p *refgen.Program
 		switch i % 3 {
 		case 0:
